@@ -209,7 +209,8 @@ def main():
     ap.add_argument('--facts', help='reuse an existing fact file (debugging only)')
     ap.add_argument('--keep-facts', help='copy the default-config fact file here')
     args = ap.parse_args()
-    props = PROPS if args.all else (args.property or [])
+    have = [p for p in PROPS if os.path.exists(os.path.join(HERE, 'rules', p.lower() + '.py'))]
+    props = have if args.all else (args.property or [])
     if not props:
         ap.error('need --property or --all')
     seed = int(os.environ.get('VERIF_SEED', '0') or 0)
